@@ -173,6 +173,30 @@ def discriminator_clash_shapes():
     return out
 
 
+def self_cycle_shapes():
+    """a step that needs its own result (through its input, wait_for, enabled or its deployment configuration), alone in
+    the workflow and next to an unrelated step: a cycle of length one - invalid"""
+    from vlib import fexpr
+    out = []
+    for field in ('input', 'wait_for', 'enabled', 'deploy'):
+        for alone in (True, False):
+            f = {'input': tmap({'id': lit('a')})}
+            if field == 'input':
+                f['input'] = tmap({'id': lit('a'), 'deps': tmap({'me': ref('steps.a.outputs.success.tok')})})
+            elif field == 'wait_for':
+                f['wait_for'] = ref('steps.a.outputs.success')
+            elif field == 'enabled':
+                f['enabled'] = fexpr('$.steps.a.outputs.success.tok != ""', ['steps.a.outputs.success.tok'])
+            else:
+                f['deploy'] = tmap({'deployer_name': lit('scripted'), 'tag': ref('steps.a.outputs.success.tok')})
+            steps = {'a': {'kind': 'plugin', 'pstep': 'work', 'fields': f}}
+            if not alone:
+                steps['z'] = {'kind': 'plugin', 'pstep': 'work', 'fields': {'input': tmap({'id': lit('z')})}}
+            out.append(('self-cycle-through-%s%s' % (field, '' if alone else '-next-to-another-step'),
+                        {'steps': steps, 'outputs': {'success': tmap({'a': ref('steps.a.outputs.success.tok')})}}))
+    return out
+
+
 def group_collision_shapes():
     """two tagged values at the same path below two fields of one stage: their dependency groups would be one node.
     Invalid - every time, whatever order the fields are visited in"""
